@@ -26,13 +26,13 @@ package proxy
 //
 //   C10.too-many-attempts       more transport calls for one client request than maxAttempts
 //                               (documented default 3; 1 without a retry policy)
-//   C10.too-few-attempts        every attempt failed, the client did not cancel, fewer than
-//                               maxAttempts attempts were made (or the client cancelled only after
-//                               the longest possible back-off had already elapsed)
+//   C10.too-few-attempts        the last attempt was a failed BACKEND call (failure code, network error, time-out),
+//                               the client had not gone away before the return, fewer than maxAttempts attempts
 //   C10.retry-after-success     an attempt was made after an attempt that succeeded
 //   C10.backoff-too-short       attempt i+1 reached the transport earlier than
-//                               waitDuration * 1.5^i (exponential only) * (1-randomizationFactor)
-//                               after attempt i had ended
+//                               waitDuration * (1-randomizationFactor) after attempt i had ended
+//   C10.backoff-not-growing     exponential policy, no randomisation, one client task: a wait is not longer than
+//                               the (exactly measured) wait before it
 //   C10.attempt-after-cancel    an attempt was started although the client had cancelled while the
 //                               retry was certainly still inside the previous attempt or its back-off
 //   C10.stream-resent           a request with a stream body reached the transport twice
@@ -49,8 +49,9 @@ package proxy
 //   C10.timeout-exceeded        pool has a timeout T, yet an attempt was released later than T (+ what scheduler
 //                               stalls consumed + 1 ms) after it reached the transport, whatever (later) deadline
 //                               the client's own request context carries
-//   C10.call-exceeds-time-limit pool has a timeout T, yet ServerPool.handle took longer than
-//                               attempts*T + the documented maximum back-offs (+ stalls + 1 s)
+//   C10.call-exceeds-time-limit pool has a timeout T, yet the attempts of one call took more than attempts*T in
+//                               total, or a call whose last attempt succeeded took more than attempts*T besides
+//                               the waits observed between its attempts (+ stalls + 1 s)
 //   C10.timeout-not-408         the last attempt ran into the pool timeout, but the client does not get
 //                               result "timeout" with status 408
 //   C10.spurious-cancel         the context handed to the transport is cancelled although the client did not
@@ -73,10 +74,9 @@ package proxy
 //                               harness/C08P, classes C08.proxy-*) ...
 //
 // Leniency decisions (statement silent / two readings):
-//   * back-off is only bounded from below (the statement says "at least"; scheduler stalls can
-//     delay the moment an attempt reaches the transport, so no upper bound is asserted). The
-//     exponential growth is read in the weaker way: the wait after the i-th failed attempt
-//     (i = 0, 1, ...) is at least waitDuration*1.5^i*(1-rf); 1 us of rounding slack.
+//   * back-off is only bounded from below (the statement says "at least"): every wait is at least
+//     waitDuration*(1-rf) (1 us of rounding slack); with the exponential policy waits must grow, but
+//     no factor is required (see CORRECTION 2 below).
 //   * waiting one more back-off after the final failed attempt is accepted (statement silent).
 //   * a cancellation that falls on or after the earliest instant at which the back-off may have
 //     ended does not forbid the next attempt; the first attempt may or may not be made when the
@@ -107,6 +107,36 @@ package proxy
 //     With several tasks only bounds are asserted (enough failed requests must exist to explain an
 //     open breaker; once a short-circuit has been observed every later request must be
 //     short-circuited).
+//   * CORRECTION (false alarm found by a soundness test, a legal change answering 502 instead of 503
+//     after a network error): the oracle demanded "serverError / 503" for a last attempt that failed
+//     with a transport error, but neither the statement nor doc/reference names a status for it, only
+//     the result (serverError = "Server-side network error"). Exact status numbers are now required
+//     only where a document names them: 408 + timeout (statement), 503 + shortCircuited (C08's
+//     statement), the backend's own status for an answered attempt incl. failure codes ("the outcome
+//     of the last attempt"). Network error: serverError + any 5xx; unreadable body: a failure result +
+//     any 5xx; no server available: a failure result + any 4xx/5xx; client cancellation: clientError,
+//     status free. Bodies of gateway-generated failure responses are not compared.
+//   * CORRECTION 2 (three false alarms found by legal alternatives, round 2):
+//     (a) exponential factor 2 instead of 1.5 was reported as C10.call-exceeds-time-limit /
+//     C10.too-few-attempts: the reference had taken the factor 1.5 and the upper end of the
+//     randomisation interval (doc/reference/controllers.md describes them) as an UPPER bound for a
+//     wait, in the call budget attempts*T + back-offs and in "the client cancelled later than the
+//     longest possible back-off". The statement only says "waits at least": no growth factor, no
+//     upper bound. Now: lower bound waitDuration*(1-rf) for every wait; growth asserted without a
+//     factor (C10.backoff-not-growing); the call budget uses the waits actually observed and does
+//     not cover the unobservable back-off after a failed last attempt; a client that went away
+//     before the return always explains missing attempts. Net variant: C10.net-timeout-hang is
+//     judged per unanswered attempt (released within T) and for successful calls only.
+//     (b) a gateway-internal failure (answer that cannot be converted: unreadable / oversized body;
+//     also: no server to call) ending the retry at once was reported as C10.too-few-attempts:
+//     "at most maxAttempts" allows it. Retrying is still demanded after a failed backend call
+//     (failure code, network error, time-out); both behaviours are accepted after a gateway-internal
+//     failure (probes c10.retry.stopped_after_/retried_up_to_gateway_internal_failure).
+//     (c) a client-abandoned request recorded by the breaker as a non-failure was reported as
+//     C10.cb-admitted-while-open: the statement fixes the number of records (exactly one per client
+//     request), not the kind of a cancelled request's record. The reference breaker now gives such a
+//     record both values and computes "may be open" / "must be open" (as for TIME_BASED windows);
+//     zero or several records per request are still detected.
 //   * an attempt whose body cannot be read has failed: a failure result and a 5xx status are
 //     required (408/timeout also accepted when the pool time-out expired inside the body, any
 //     4xx/5xx after a client cancel); which failure result is not prescribed. A stalled body
@@ -121,8 +151,8 @@ package proxy
 //     fails is not an attempt failure in stream mode (the pool cannot know): outcome by status.
 //   * an attempt for which the load balancer has no server ("noserver", as after a service-discovery
 //     update listing none) is a failed attempt without transport call: counts towards maxAttempts, must
-//     be followed by the back-off, and as last attempt must give a failure result with a 5xx status
-//     (which result is not documented).
+//     be followed by the back-off, and as last attempt must give a failure result with an error
+//     status (neither is documented more precisely).
 //   * serverMaxBodySize on the Proxy is the documented fallback of the pool option: same expectations.
 //   * methods POST/PUT/PATCH/GET/DELETE (GET/DELETE without body); retries do not depend on the method
 //     (neither statement nor documentation make them).
@@ -132,7 +162,6 @@ import (
 	"errors"
 	"fmt"
 	"io"
-	"math"
 	"net/http"
 	"os"
 	"runtime"
@@ -454,27 +483,16 @@ type c10Ref struct {
 	timeout     time.Duration
 }
 
-// minWait is the shortest documented wait after the failed attempt number i
-// (0-based): base * 1.5^i (exponential) * (1 - randomizationFactor).
+// minWait is the shortest wait after a failed attempt that the statement allows: "at least the
+// configured (randomised, optionally exponentially growing) back-off", i.e. the configured base
+// wait less the randomisation, base * (1 - randomizationFactor); an exponential policy may only
+// lengthen it (no growth factor is fixed by the statement, and no upper bound on any wait).
 func (m *c10Ref) minWait(i int) time.Duration {
-	base := float64(m.wait)
-	if m.exponential {
-		base *= math.Pow(1.5, float64(i))
-	}
-	d := time.Duration(base*(1-m.rf)) - time.Microsecond
+	d := time.Duration(float64(m.wait)*(1-m.rf)) - time.Microsecond
 	if d < 0 {
 		d = 0
 	}
 	return d
-}
-
-// maxWait is the longest documented wait after the failed attempt number i.
-func (m *c10Ref) maxWait(i int) time.Duration {
-	base := float64(m.wait)
-	if m.exponential {
-		base *= math.Pow(1.5, float64(i))
-	}
-	return time.Duration(base*(1+m.rf)) + time.Microsecond
 }
 
 // c10Breaker: window of the last `window` outcomes (COUNT_BASED) or of the outcomes of the
@@ -488,8 +506,23 @@ func (m *c10Ref) maxWait(i int) time.Duration {
 // The model therefore yields "may be open" / "must be open"; an observed admission or
 // short-circuit that is allowed settles the state.
 type c10Rec struct {
-	failed bool
+	failed bool // recorded as a failure ...
+	unsure bool // ... or possibly as a non-failure (a request the client had abandoned)
 	lo, hi time.Duration
+}
+
+func (q c10Rec) fmin() int {
+	if q.failed && !q.unsure {
+		return 1
+	}
+	return 0
+}
+
+func (q c10Rec) fmax() int {
+	if q.failed || q.unsure {
+		return 1
+	}
+	return 0
 }
 
 type c10Breaker struct {
@@ -505,66 +538,63 @@ func (b *c10Breaker) trips(total, failures int) bool {
 	return total >= b.minCalls && failures*100 >= b.failPct*total
 }
 
-func (b *c10Breaker) record(failed bool, lo, hi time.Duration) {
+// record adds exactly one outcome for a client request. unsure: the request failed after the
+// client had abandoned it; the statement does not say whether that counts as a failure.
+func (b *c10Breaker) record(failed, unsure bool, lo, hi time.Duration) {
 	if b.open {
 		return
 	}
-	rec := c10Rec{failed, lo, hi}
+	rec := c10Rec{failed, unsure && failed, lo, hi}
+	var sure, amb []c10Rec // certainly in the window / possibly in the window
 	if !b.timeBased {
 		b.res = append(b.res, rec)
 		if len(b.res) > b.window {
 			b.res = b.res[len(b.res)-b.window:]
 		}
-		f := 0
-		for _, x := range b.res {
-			if x.failed {
-				f++
+		sure = b.res
+	} else {
+		w := time.Duration(b.window) * time.Second
+		var keep []c10Rec
+		for _, q := range b.res {
+			switch {
+			case lo-q.hi >= w+time.Second:
+				b.evicted = true // certainly out, now and later
+			case hi-q.lo <= w-time.Second:
+				keep = append(keep, q)
+				sure = append(sure, q)
+			default:
+				keep = append(keep, q)
+				amb = append(amb, q)
 			}
 		}
-		b.open = b.trips(len(b.res), f)
-		b.mayOpen = b.open
-		return
+		b.res = append(keep, rec)
+		sure = append(sure, rec)
 	}
-	w := time.Duration(b.window) * time.Second
-	total, failures := 1, 0
-	if failed {
-		failures = 1
-	}
-	var keep, amb []c10Rec
-	for _, q := range b.res {
-		switch {
-		case lo-q.hi >= w+time.Second:
-			b.evicted = true // certainly out, now and later
-		case hi-q.lo <= w-time.Second:
-			keep = append(keep, q)
-			total++
-			if q.failed {
-				failures++
-			}
-		default:
-			keep = append(keep, q)
-			amb = append(amb, q)
-		}
-	}
-	b.res = append(keep, rec)
 	if len(amb) > 12 {
 		b.open, b.mayOpen, b.ambiguous = false, true, true
 		return
 	}
+	total, fmin, fmax := 0, 0, 0
+	for _, q := range sure {
+		total++
+		fmin += q.fmin()
+		fmax += q.fmax()
+	}
 	may, must := false, true
 	for mask := 0; mask < 1<<len(amb); mask++ {
-		t, f := total, failures
+		t, lo, hi := total, fmin, fmax
 		for i, q := range amb {
 			if mask&(1<<i) != 0 {
 				t++
-				if q.failed {
-					f++
-				}
+				lo += q.fmin()
+				hi += q.fmax()
 			}
 		}
-		if b.trips(t, f) {
+		// trips is monotone in the number of failures
+		if b.trips(t, hi) {
 			may = true
-		} else {
+		}
+		if !b.trips(t, lo) {
 			must = false
 		}
 	}
@@ -680,7 +710,11 @@ type c10Att struct {
 	failed     bool
 	tag        string
 	sent       string        // bodyerr: the bytes of the failed body that were delivered
+	gap        time.Duration // wait observed before this attempt (previous attempt's end -> this entry)
+	gapClean   bool          // no scheduler stall fell into that wait: it is exactly what the retry waited
+	stEnd      time.Duration // scheduler stall time consumed when the attempt ended
 	lower      time.Duration // earliest instant at which the pool can have started this attempt
+	hangs      bool          // net variant: the backend never answers this attempt
 	cut        bool          // stream response: the backend's body ends early (after `sent`)
 	sbody      *c10StreamBody
 }
@@ -822,6 +856,17 @@ func c10Exec(r *sim.Run, sci interface{}) {
 				r.Violate("C10.attempt-after-cancel", "request %s: client cancelled (or its deadline expired) at %v (cancel %v, own deadline %v); attempt %d had ended at %v and the back-off cannot end before %v, yet attempt %d was started (reached the transport at %v)\n%s\nhistory: %s",
 					st.name, endAt, st.cancelled, st.deadlineAt, idx, prev.end, lower, idx+1, att.entry, describe(), history())
 			}
+			att.gap, att.gapClean = att.entry-prev.end, r.StalledFor() == prev.stEnd
+			// "optionally exponentially growing": with the exponential policy and no randomisation
+			// each wait is longer than the one before (whatever the factor). Only judged when the
+			// earlier wait was measured exactly: one client task (no lock hand-overs), no stall.
+			if idx >= 2 && ref.exponential && ref.rf == 0 && len(sc.Clients) == 1 && prev.gapClean && !r.Violated() {
+				r.Probe("c10.retry.exponential_growth_checked")
+				if att.gap <= prev.gap {
+					r.Violate("C10.backoff-not-growing", "request %s: exponential back-off without randomisation, yet the wait before attempt %d (%v) is not longer than the wait before attempt %d (%v)\n%s\nhistory: %s",
+						st.name, idx+1, att.gap, idx, prev.gap, describe(), history())
+				}
+			}
 			if idx >= 2 && ref.exponential {
 				sawExp3 = true
 			}
@@ -934,7 +979,7 @@ func c10Exec(r *sim.Run, sci interface{}) {
 		if ctx.Err() == stdcontext.Canceled && !st.cancelled && !r.Violated() {
 			r.Violate("C10.spurious-cancel", "request %s attempt %d: the context handed to the transport is cancelled at %v although the client never cancelled and no time-out expired\n%s\nhistory: %s", st.name, idx+1, r.Now(), describe(), history())
 		}
-		att.end = r.Now()
+		att.end, att.stEnd = r.Now(), r.StalledFor()
 		st.inAttempt = false
 		att.tag = fmt.Sprintf("%s-attempt-%d", st.name, idx+1)
 		if err := ctx.Err(); err != nil {
@@ -1049,7 +1094,7 @@ func c10Exec(r *sim.Run, sci interface{}) {
 		if idx := len(st.atts); idx < len(st.op.Attempts) && st.op.Attempts[idx].Kind == "noserver" {
 			r.Yield("c10.lb.noserver")
 			_, att, _ := begin(st)
-			att.kind, att.failed, att.end = "noserver", true, r.Now()
+			att.kind, att.failed, att.end, att.stEnd = "noserver", true, r.Now(), r.StalledFor()
 			att.tag = fmt.Sprintf("%s-attempt-%d", st.name, idx+1)
 			note("%s.a%d no server available", st.name, idx)
 			r.Fault("no-server-available")
@@ -1109,15 +1154,25 @@ func c10Exec(r *sim.Run, sci interface{}) {
 				if n > 0 {
 					lo = st.atts[n-1].end
 				}
-				model.record(result != "", lo, st.retAt)
+				// a request that failed after its client had abandoned it (cancel or own deadline)
+				// is one record as well, but the statement does not say of which kind
+				abandoned := result != "" && ((st.cancelled && st.cancelStamp < st.retStamp) || (st.deadlineAt > 0 && st.retAt >= st.deadlineAt))
+				if abandoned {
+					r.Probe("c10.cb.abandoned_request_outcome_either")
+				}
+				model.record(result != "", abandoned, lo, st.retAt)
 				for _, a := range st.atts {
-					shadow.record(a.failed, a.end, st.retAt)
+					shadow.record(a.failed, false, a.end, st.retAt)
 				}
 				if model.timeBased {
 					r.Probe("c10.cb.time_based.request_recorded")
 					if model.ambiguous {
 						r.Probe("c10.cb.time_based.verdict_ambiguous")
 					}
+				} else if model.ambiguous {
+					r.Probe("c10.cb.count_based.verdict_ambiguous")
+				}
+				if model.timeBased {
 					if model.evicted {
 						r.Probe("c10.cb.time_based.outcome_aged_out")
 					}
@@ -1186,20 +1241,28 @@ func c10Exec(r *sim.Run, sci interface{}) {
 		}
 		last := st.atts[n-1]
 		cancelledBeforeReturn := (st.cancelled && st.cancelStamp < st.retStamp) || (st.deadlineAt > 0 && st.retAt >= st.deadlineAt)
-		endAt := st.cancelAt
-		if st.deadlineAt > 0 && st.retAt >= st.deadlineAt && (!st.cancelled || st.deadlineAt < endAt) {
-			endAt = st.deadlineAt
-		}
-		// time limit for the whole call: every attempt is bounded by the pool time-out, every wait
-		// by the documented maximum (slack: scheduler stalls + 1 s for lock hand-overs)
+		// time limit for the whole call: every attempt (head and body) is bounded by the pool
+		// time-out; the waits between attempts are what was observed (the statement puts no upper
+		// bound on a back-off); after a failed last attempt one more back-off of unknown length may
+		// be waited, so the call as a whole is only bounded when the last attempt succeeded
+		// (slack: scheduler stalls + 1 s for lock hand-overs)
 		if ref.timeout > 0 && !r.Aborted() {
-			bound := st.stalledRet - st.stalled0 + time.Second
-			for i := 0; i < n; i++ {
-				bound += ref.timeout + ref.maxWait(i)
+			slack := st.stalledRet - st.stalled0 + time.Second
+			var inAttempts, waits time.Duration
+			for _, a := range st.atts {
+				inAttempts += a.end - a.entry
+				waits += a.gap
 			}
-			if st.retAt-st.callAt > bound {
-				r.Violate("C10.call-exceeds-time-limit", "request %s: called at %v, returned at %v (%v) with %d attempt(s); pool timeout %v and the documented back-offs allow at most %v (client's own deadline at %v)\n%s\nhistory: %s",
-					st.name, st.callAt, st.retAt, st.retAt-st.callAt, n, ref.timeout, bound, st.deadlineAt, describe(), history())
+			lim := time.Duration(n)*ref.timeout + slack
+			switch {
+			case inAttempts > lim:
+				r.Violate("C10.call-exceeds-time-limit", "request %s: its %d attempt(s) took %v in total; the pool timeout %v allows at most %v (client's own deadline at %v)\n%s\nhistory: %s",
+					st.name, n, inAttempts, ref.timeout, lim, st.deadlineAt, describe(), history())
+			case !last.failed && st.retAt-st.callAt-waits > lim:
+				r.Violate("C10.call-exceeds-time-limit", "request %s: called at %v, returned at %v (%v) with %d attempt(s), the last one successful, %v of it observed waits between attempts; the pool timeout %v allows at most %v besides the waits (client's own deadline at %v)\n%s\nhistory: %s",
+					st.name, st.callAt, st.retAt, st.retAt-st.callAt, n, waits, ref.timeout, lim, st.deadlineAt, describe(), history())
+			}
+			if r.Violated() {
 				return
 			}
 		}
@@ -1207,16 +1270,21 @@ func c10Exec(r *sim.Run, sci interface{}) {
 		if st.op.Stream || !rt.On {
 			maxA = 1
 		}
+		// a failing BACKEND call (failure code, network error, time-out) is attempted again until
+		// success or maxAttempts, unless the client went away meanwhile (a back-off may be of any
+		// length, so a cancellation before the return always explains the missing attempts). A
+		// failure produced by the gateway itself (an answer that cannot be converted: unreadable or
+		// oversized body; no server to call) may or may not be retried: "at most maxAttempts".
 		if last.failed && n < maxA {
-			if !cancelledBeforeReturn {
-				r.Violate("C10.too-few-attempts", "request %s: %d attempt(s), all failed, client did not cancel, maxAttempts=%d\n%s\nhistory: %s", st.name, n, maxA, describe(), history())
+			switch {
+			case last.kind == "bodyerr" || last.kind == "noserver":
+				r.Probe("c10.retry.stopped_after_gateway_internal_failure")
+			case !cancelledBeforeReturn:
+				r.Violate("C10.too-few-attempts", "request %s: %d attempt(s), the last one a failed backend call (%s %d %s), client did not cancel, maxAttempts=%d\n%s\nhistory: %s", st.name, n, last.kind, last.status, last.ctxErr, maxA, describe(), history())
 				return
 			}
-			if endAt > last.end+ref.maxWait(n-1) {
-				r.Violate("C10.too-few-attempts", "request %s: %d attempt(s), all failed, maxAttempts=%d; the client cancelled (or its deadline expired) at %v, later than the longest back-off after attempt %d (ended %v, wait <= %v)\n%s\nhistory: %s",
-					st.name, n, maxA, endAt, n, last.end, ref.maxWait(n-1), describe(), history())
-				return
-			}
+		} else if last.failed && (last.kind == "bodyerr" || last.kind == "noserver") && n >= 2 {
+			r.Probe("c10.retry.retried_up_to_gateway_internal_failure")
 		}
 		// the body that belongs to the last attempt's answer: the complete one; of a stream
 		// response whose backend body ends early, any prefix of what the backend delivered
@@ -1256,8 +1324,8 @@ func c10Exec(r *sim.Run, sci interface{}) {
 		switch {
 		case last.kind == "noserver":
 			// no backend call was possible: a failure (statement and documentation do not say which)
-			if result == "" || !hasResp || !(status >= 500 || (cancelledBeforeReturn && status >= 400)) {
-				r.Violate("C10.final-outcome", "request %s: last attempt (%d) found no server, client got result %q status %d (expected a failure result with a 5xx status)\n%s\nhistory: %s", st.name, n, result, status, describe(), history())
+			if result == "" || !hasResp || status < 400 || status > 599 {
+				r.Violate("C10.final-outcome", "request %s: last attempt (%d) found no server, client got result %q status %d (expected a failure result with an error status)\n%s\nhistory: %s", st.name, n, result, status, describe(), history())
 			}
 		case last.kind == "resp" && !last.failed:
 			if result != "" || !hasResp || status != last.status || !bodyOK {
@@ -1300,8 +1368,10 @@ func c10Exec(r *sim.Run, sci interface{}) {
 				r.Violate("C10.final-outcome", "request %s: last attempt (%d) was aborted by the client's cancellation, client got result %q status %d (expected clientError)\n%s\nhistory: %s", st.name, n, result, status, describe(), history())
 			}
 		default:
-			if result != "serverError" || !hasResp || status != http.StatusServiceUnavailable {
-				r.Violate("C10.final-outcome", "request %s: last attempt (%d) failed with a network error, client got result %q status %d (expected serverError / 503)\n%s\nhistory: %s", st.name, n, result, status, describe(), history())
+			// documented: result serverError ("Server-side network error"); no document names a
+			// status for it: any gateway-generated 5xx
+			if result != "serverError" || !hasResp || status < 500 || status > 599 {
+				r.Violate("C10.final-outcome", "request %s: last attempt (%d) failed with a network error, client got result %q status %d (expected serverError with a 5xx status)\n%s\nhistory: %s", st.name, n, result, status, describe(), history())
 			}
 		}
 		if last.failed && n == maxA && n >= 2 {
@@ -1581,7 +1651,7 @@ func (b *c10FailBody) Read(p []byte) (int, error) {
 			how = "ctx-" + b.att.ctxErr
 		}
 	}
-	b.att.end = b.r.Now()
+	b.att.end, b.att.stEnd = b.r.Now(), b.r.StalledFor()
 	b.done(how)
 	return 0, b.err
 }
@@ -1694,14 +1764,16 @@ func TestVerifC10(t *testing.T) {
 		Stub: []string{"transport: fnSendRequest replaced by a scripted backend honouring the request context (stream-response bodies are readable only while that context is alive, as with net/http)",
 			"load balancer: the pool's balancer is replaced by a scripted one offering the pool's single server or, for an attempt scripted so, none", "clients and cancellers are harness tasks", "sync/atomic -> simatomic, sync.Mutex -> simsync, math/rand -> simrand (same semantics + gates / taped draws)"},
 		Assumptions: []string{
-			"back-off is bounded from below only: wait after the i-th failed attempt >= waitDuration*1.5^i(exponential)*(1-randomizationFactor) - 1us; an extra wait after the final failed attempt is accepted",
+			"back-off is bounded from below only: every wait >= waitDuration*(1-randomizationFactor) - 1us; exponential policy: waits grow (checked without a factor when rf=0, one client, no stall); no upper bound on any wait; an extra wait after the final failed attempt is accepted",
+			"retrying is required after a failed backend call (failure code, network error, time-out) unless the client went away before the return; after a gateway-internal failure (unconvertible answer, no server) stopping or retrying are both accepted",
+			"a failed request the client had abandoned is exactly one breaker record of either kind (reference computes may/must be open)",
 			"a cancellation at or after the earliest possible end of a back-off does not forbid the next attempt; a cancel before the first attempt may or may not suppress it; after a client cancel only result clientError is required (status free)",
 			"pool timeout is checked per attempt: deadline <= transport entry + timeout, DeadlineExceeded not before earliest attempt start + timeout; answer and time-out at the same instant count as time-out",
 			"backOffPolicy only omitted/random/exponential, maxAttempts >= 1 or omitted (3), waitDuration omitted (500ms) or 1ms..2s; client cancellation is a context cancel and/or a deadline of the client's own request context (its expiry = cancellation at that instant; result timeout or clientError accepted then)",
-			"time limit: with pool timeout T an unanswered attempt is released within T + scheduler stalls + 1ms of reaching the transport and the call returns within attempts*T + maximum back-offs + stalls + 1s, whatever later deadline the client's context has",
+			"time limit: with pool timeout T an unanswered attempt is released within T + scheduler stalls + 1ms of reaching the transport all attempts of a call take at most attempts*T and a successful call at most attempts*T besides the observed waits (+ stalls + 1s), whatever later deadline the client's context has",
 			"breaker COUNT_BASED or TIME_BASED with 24h open wait and 24h slow-call threshold, optional fields omitted (documented defaults); exact prediction with one client task (TIME_BASED: an outcome N-1..N+1 s old may or may not count), bounds with several",
 			"stream response: the complete backend body must be readable right after handle returned unless the backend cut it, the client cancelled, or the pool time-out has elapsed since the last attempt's earliest start; a failing backend body is no attempt failure in stream mode",
-			"an attempt without available server is a failed attempt (counts, back-off follows, as last attempt: failure result + 5xx); every attempt must carry the client's method and body bytes",
+			"an attempt without available server is a failed attempt (counts, back-off follows, as last attempt: failure result + error status); every attempt must carry the client's method and body bytes",
 		},
 	})
 }
